@@ -48,7 +48,14 @@ func selDefs(items []string) (names []string, defs map[string]*FieldExpr) {
 }
 
 func genGroupedQuery(r *Rng, t *TableDef, u *Universe) Op {
-	names := fieldNames(t)
+	// only fields the reference model can evaluate (SHIFT fields, for
+	// instance, report their values in other periods)
+	var names []string
+	for _, f := range t.Fields {
+		if exprModelled(t, f.E) {
+			names = append(names, f.Name)
+		}
+	}
 	var items []string
 	if r.Bool(0.7) {
 		items = append(items, "p")
